@@ -678,7 +678,7 @@ func (hc *c18Check) runLayers(layers []c18Layer, budget time.Duration, assumptio
 	for li, l := range layers {
 		ld := deadline
 		if left := time.Until(deadline); left > 0 {
-			if share := time.Now().Add(2 * left / time.Duration(len(layers)-li)); share.Before(ld) {
+			if share := time.Now().Add(left / time.Duration(len(layers)-li)); share.Before(ld) {
 				ld = share
 			}
 		}
